@@ -241,4 +241,96 @@ def Sys.run (f : MockFn) (s : Sys) : List CycIn → List SysOut
   | [] => []
   | i :: is => (s.step f i).2 :: Sys.run f (s.step f i).1 is
 
+/-! ### `CallTrigger` with several calls (testbenchio.py:15-133)
+
+`CallTrigger(sim).call(m0, d0).call(m1, d1).sample(m2).sample(sig)` awaited once, through
+`until_done()` or through `until_all_done()`.  One await (`__await__`, 97-129): `call_init` for every
+`call` entry, one tick sampling `(outputs, done)` of every listed method and the plain values,
+`disable` for every `call` entry; the result of a method entry is its outputs if `done` else
+`None`, the result of a plain value is the value.  `until_done` / `until_all_done` (79-95) repeat
+the whole await — re-issuing every call — until any / all results are not `None`. -/
+
+inductive Entry where
+  | call (m : Nat) (d : Nat)     -- `.call(tb_m, d)`
+  | samp (m : Nat)               -- `.sample(tb_m)`: sampled, not called by this trigger
+  | value                        -- `.sample(signal)`
+deriving Repr, DecidableEq
+
+inductive Mode where
+  | once | anyDone | allDone     -- `await t` | `await t.until_done()` | `await t.until_all_done()`
+deriving Repr, DecidableEq
+
+inductive TCmd where
+  | trig (es : List Entry) (mode : Mode)
+  | tick
+deriving Repr, DecidableEq
+
+structure TCaller where
+  prog : List TCmd
+deriving Repr, DecidableEq
+
+/-- one cycle of the methods as seen from the testbench: `ext m` = another agent enables adapter `m`
+    with this data, `grant m` = method `m` runs if its adapter is enabled, `out m a` = its result for
+    argument `a`, `value` = the sampled plain signal -/
+structure TEnv where
+  ext : Nat → Option Nat
+  grant : Nat → Bool
+  out : Nat → Nat → Nat
+  value : Nat
+
+/-- the data this trigger puts on adapter `m` (`call_init`), if it calls `m` -/
+def callData : List Entry → Nat → Option Nat
+  | [], _ => none
+  | .call m' d :: es, m => if m' = m then some d else callData es m
+  | _ :: es, m => callData es m
+
+/-- adapter `m`'s `data_in` while enabled: the trigger's `call_init` comes after the other agent's poke -/
+def dataOf (es : List Entry) (e : TEnv) (m : Nat) : Option Nat :=
+  match callData es m with
+  | some d => some d
+  | none => e.ext m
+
+/-- adapter `m`'s `done` at the edge -/
+def doneOf (es : List Entry) (e : TEnv) (m : Nat) : Bool := (dataOf es e m).isSome && e.grant m
+
+/-- testbenchio.py:120-129 — the result of one entry -/
+def resOf (es : List Entry) (e : TEnv) : Entry → Option Nat
+  | .call m d => if doneOf es e m then some (e.out m d) else none
+  | .samp m => if doneOf es e m then (dataOf es e m).map (e.out m) else none
+  | .value => some e.value
+
+def results (es : List Entry) (e : TEnv) : List (Option Nat) := es.map (resOf es e)
+
+/-- does the awaiting coroutine return after this cycle? (testbenchio.py:87-95) -/
+def fires : Mode → List (Option Nat) → Bool
+  | .once, _ => true
+  | .anyDone, rs => rs.any (·.isSome)
+  | .allDone, rs => rs.all (·.isSome)
+
+structure TOut where
+  en : Nat → Bool                       -- adapter.en of method m during the cycle
+  done : Nat → Bool                     -- adapter.done of method m at the edge = the method ran for it
+  evt : Option (List (Option Nat))      -- the tuple handed back to the process in this cycle
+
+/-- entries in force during a cycle: those of the trigger being awaited, none otherwise -/
+def TCaller.entries (c : TCaller) : List Entry :=
+  match c.prog with
+  | .trig es _ :: _ => es
+  | _ => []
+
+def TCaller.step (c : TCaller) (e : TEnv) : TCaller × TOut :=
+  let es := c.entries
+  let o (evt : Option (List (Option Nat))) : TOut :=
+    { en := fun m => (dataOf es e m).isSome, done := doneOf es e, evt := evt }
+  match c.prog with
+  | .trig es' mode :: rest =>
+    if fires mode (results es' e) then ({ prog := rest }, o (some (results es' e)))
+    else (c, o none)
+  | .tick :: rest => ({ prog := rest }, o none)
+  | [] => (c, o none)
+
+def TCaller.run (c : TCaller) : List TEnv → List TOut
+  | [] => []
+  | e :: es => (c.step e).2 :: TCaller.run (c.step e).1 es
+
 end TxV.Testbench
